@@ -617,7 +617,19 @@ def int_to_rope(v, length, byteorder="big", signed=False):
         lo = hi = 0
     if decide(v < lo) or decide(v > hi):
         raise OverflowError("int too big to convert")
-    cells = [SymInt((v.t / (256 ** i)) % 256) for i in range(length)]
+    if length == 0:
+        return SymBytes([])
+    # little-endian digits as fresh variables: value == sum(d_i * 256^i), 0 <= d_i <= 255 (linear, unique)
+    e = ex()
+    ds = [z3.Int(e.fresh_name("dig")) for _ in range(length)]
+    for d in ds:
+        e.add(z3.And(d >= 0, d <= 255))
+    total = z3.Sum([d * (256 ** i) for i, d in enumerate(ds)]) if length > 1 else ds[0]
+    if signed:
+        e.add(z3.If(v.t >= 0, v.t, v.t + (1 << (8 * length))) == total)
+    else:
+        e.add(v.t == total)
+    cells = [SymInt(d) for d in ds]
     if byteorder == "big":
         cells.reverse()
     elif byteorder != "little":
